@@ -133,6 +133,7 @@ structure Th where
   prog : List Call := []
   cur : Option Call := none            -- the API call in progress
   slice : Option (Nat × Nat) := none   -- producer: slice handed out by WriteWait (stream start, length)
+  filled : Nat := 0                    -- producer: bytes of that slice it has filled (from its start)
   view : View := .none                 -- consumer: view handed out by ReadPeek/ReadWait
   pending : List UInt8 := []           -- consumer: bytes read from the view, not yet committed
   res : Option Res := none             -- result of the call that returned in this thread's last step
@@ -225,9 +226,9 @@ def mustWait (w : Bool) (n cpos ppos : Nat) : Bool :=
 /-- first step of a call: argument checks that touch no shared state, up to the first mark -/
 def startCall (cfg : Cfg) (th : Th) (call : Call) : Th :=
   match call with
-  | .write n => { th with slice := none }.goto (.w40 n)
-  | .wwait n => enterWfs cfg { th with slice := none } n
-  | .wcommit n => enterWfs cfg { th with slice := none } n
+  | .write n => { th with slice := none, filled := 0 }.goto (.w40 n)
+  | .wwait n => enterWfs cfg { th with slice := none, filled := 0 } n
+  | .wcommit n => enterWfs cfg { th with slice := none } (min n th.filled)
   | .wfill =>
     match th.slice with
     | some (start, len) => th.goto (.f0 start len 0)
@@ -301,12 +302,12 @@ def tstep (cfg : Cfg) (sh : Sh) (me : Tid) (th0 : Th) : Option (Sh × Th) :=
     if j < n then
       some ({ sh with buf := wr sh.buf (cfg.idx (ppos + j)) (cfg.src (ppos + j)) }, th.goto (.w41c n ppos (j + 1)))
     else some (sh, th.goto (.w42 n ppos))
-  | .w42 n ppos => some ({ sh with pseq := ppos + n }, th.goto (.w43 n))
+  | .w42 n ppos => some ({ sh with pseq := ppos + n }, { th with slice := none, filled := 0 }.goto (.w43 n))
   | .w43 n => (sh.lock .cL me).map (·, th.goto (.w44 n))
   | .w44 n => some (sh.bcast .cL, th.goto (.w45 n))
   | .w45 n => some (sh.unlock .cL, th.ret { n := n })
   -- WriteCommit
-  | .c50 n ppos => some ({ sh with pseq := ppos + n }, th.goto (.c51 n))
+  | .c50 n ppos => some ({ sh with pseq := ppos + n }, { th with slice := none, filled := 0 }.goto (.c51 n))
   | .c51 n => (sh.lock .cL me).map (·, th.goto (.c52 n))
   | .c52 n => some (sh.bcast .cL, th.goto (.c53 n))
   | .c53 n => some (sh.unlock .cL, th.ret { n := n })
@@ -314,7 +315,7 @@ def tstep (cfg : Cfg) (sh : Sh) (me : Tid) (th0 : Th) : Option (Sh × Th) :=
   | .f0 start len j =>
     if j < len then
       some ({ sh with buf := wr sh.buf (cfg.idx (start + j)) (cfg.src (start + j)) }, th.goto (.f0 start len (j + 1)))
-    else some (sh, th.ret { n := len, off := start })
+    else some (sh, { th with filled := len }.ret { n := len, off := start })
   -- Read
   | .r60 n => if sh.done then some (sh, th.goto .l20) else some (sh, th.goto (.r61 n))
   | .r61 n => some (sh, th.goto (.r62 n sh.cseq))
@@ -331,7 +332,8 @@ def tstep (cfg : Cfg) (sh : Sh) (me : Tid) (th0 : Th) : Option (Sh × Th) :=
     if j < k then some (sh, th.goto (.r63c b cpos k (j + 1) (rd sh.buf (cfg.idx (cpos + j)) :: acc)))
     else some (sh, th.goto (.r64 b cpos acc))
   | .r64 b cpos acc =>
-    some ({ sh with cseq := cpos + acc.length, gotRev := acc ++ sh.gotRev }, th.goto (.r65 b cpos acc))
+    some ({ sh with cseq := cpos + acc.length, gotRev := acc ++ sh.gotRev },
+          { th with view := .none, pending := [] }.goto (.r65 b cpos acc))
   | .r65 b cpos acc => (sh.lock .pL me).map (·, th.goto (.r66 b cpos acc))
   | .r66 b cpos acc => some (sh.bcast .pL, th.goto (.r67 b cpos acc))
   | .r67 _ cpos acc => some (sh.unlock .pL, th.ret { n := acc.length, off := cpos, data := acc.reverse })
@@ -374,7 +376,7 @@ def tstep (cfg : Cfg) (sh : Sh) (me : Tid) (th0 : Th) : Option (Sh × Th) :=
     if cpos + n ≤ sh.pseq then some (sh, th.goto (.k102 n cpos)) else some (sh, th.ret { err := .insuf })
   | .k102 n cpos =>
     some ({ sh with cseq := cpos + n, gotRev := (th0.pending.take n).reverse ++ sh.gotRev },
-          { th with pending := [] }.goto (.k103 n))
+          { th with view := .none, pending := [] }.goto (.k103 n))
   | .k103 n => (sh.lock .pL me).map (·, th.goto (.k104 n))
   | .k104 n => some (sh.bcast .pL, th.goto (.k105 n))
   | .k105 n => some (sh.unlock .pL, th.ret { n := n })
